@@ -31,7 +31,7 @@ type sOp struct {
 	Sid *int   `json:"sid,omitempty"`
 }
 
-var postKinds = []string{"initOk", "initBad", "request", "requestChatty", "notifInitialized", "notifOther", "response", "responseEmpty", "invalid"}
+var postKinds = []string{"initOk", "initBad", "request", "requestChatty", "notifInitialized", "notifOther", "notifNamedInitialize", "notifNamedInitializeNullId", "response", "responseEmpty", "invalid"}
 
 var bodies = map[string]string{
 	"initOk":           `{"jsonrpc":"2.0","id":1,"method":"initialize","params":{"protocolVersion":"2025-03-26","capabilities":{},"clientInfo":{"name":"verif","version":"1"}}}`,
@@ -40,9 +40,12 @@ var bodies = map[string]string{
 	"requestChatty":    `{"jsonrpc":"2.0","id":"c3","method":"tools/call","params":{"name":"chatty","arguments":{}}}`,
 	"notifInitialized": `{"jsonrpc":"2.0","method":"notifications/initialized"}`,
 	"notifOther":       `{"jsonrpc":"2.0","method":"notifications/cancelled","params":{"requestId":5}}`,
-	"response":         `{"jsonrpc":"2.0","id":77,"result":{"roots":[]}}`,
-	"responseEmpty":    `{"jsonrpc":"2.0","id":77}`,
-	"invalid":          `{"jsonrpc":"2.0","params":{}}`,
+	// a notification (no id / id null) that happens to be NAMED like the handshake request: it is not an initialize request
+	"notifNamedInitialize":       `{"jsonrpc":"2.0","method":"initialize","params":{"protocolVersion":"2025-03-26","capabilities":{},"clientInfo":{"name":"verif","version":"1"}}}`,
+	"notifNamedInitializeNullId": `{"jsonrpc":"2.0","id":null,"method":"initialize","params":{"protocolVersion":"2025-03-26","capabilities":{},"clientInfo":{"name":"verif","version":"1"}}}`,
+	"response":                   `{"jsonrpc":"2.0","id":77,"result":{"roots":[]}}`,
+	"responseEmpty":              `{"jsonrpc":"2.0","id":77}`,
+	"invalid":                    `{"jsonrpc":"2.0","params":{}}`,
 }
 
 func refs(nIssued int) []any {
@@ -267,7 +270,7 @@ func runSessionHistory(c *hk.Ctx, cfg hk.SrvCfg, h []sOp, foreignID string, dist
 	})
 	chattyCalls := map[int]int{} // symbolic session -> chatty calls served in it so far
 	ids := []string{}            // symbolic index -> real id
-	idx := map[string]int{} // real id -> symbolic index
+	idx := map[string]int{}      // real id -> symbolic index
 	streams := map[int]*hk.Stream{}
 	expectedAlive := map[int]bool{} // the spec, maintained from accepted issues and accepted deletes only
 	symb := func(real string) any {
@@ -382,7 +385,7 @@ func runSessionHistory(c *hk.Ctx, cfg hk.SrvCfg, h []sOp, foreignID string, dist
 				}
 			}
 			if cfg.Mode == "stateless" {
-				want := map[string]int{"initOk": 200, "initBad": 200, "request": 200, "requestChatty": 200, "notifInitialized": 202, "notifOther": 202, "response": 202, "responseEmpty": 400, "invalid": 400}[op.K]
+				want := map[string]int{"initOk": 200, "initBad": 200, "request": 200, "requestChatty": 200, "notifInitialized": 202, "notifOther": 202, "notifNamedInitialize": 202, "notifNamedInitializeNullId": 202, "response": 202, "responseEmpty": 400, "invalid": 400}[op.K]
 				if r.Status != want {
 					c.Violate(hk.Violation{Fingerprint: "session:stateless-answer-depends-on-id-or-history", What: "in stateless mode the answer must not depend on a session id or on earlier requests",
 						Input: map[string]any{"cfg": cfg, "history": h[:oi+1], "ref": refKind}, Observed: r.Status, Expected: want})
